@@ -25,6 +25,7 @@ STATIC_ERRORS = [
     '* | json | where 5', '* | json | where "str"', '* | json | where null', '* | json | where',
     '* | json | nosuchfn(a) as x', '* | json | where nosuchfn(a) > 1', '* | json | sum(nosuch(a))', '* | json | nosuchop', '* | json | cuont by x',
     '* | parse regex "(\\\\d+)"', '* | parse regex "(?P<a>\\\\d+)" as a', '* | parse regex "(unclosed"',
+    '* | parse regex "status=[0-9]+" as code', '* | parse regex "x" as a', '* | parse regex "(?P<a>x)(?P<b>y)" as a, b',
     '* | json | p0(a)', '* | json | p100(a)', '* | json | p150(a)', '* | json | pct0(a)', '* | json | percentile100(a)',
     '* | json | sum', '* | json | sum()', '* | json | min', '* | json | avg', '* | json | total', '* | json | timeslice', '* | json | timeslice(t)',
     '* | json | count_distinct', '* | json | count_distinct()', '* | json | count_distinct(a, b)', '* | json | if(a, b) as x', '* | json | if(a) as x',
